@@ -584,3 +584,68 @@ package mux
 //@   ensures [C10] strict-success: called("tree.Tree.URL", 1) && callresult("tree.Tree.URL", 1, 0) == nil ==> result1 == nil
 //@   ensures [C10] error-propagated: called("syntax.Interceptors.URL", 1) && callresult("syntax.Interceptors.URL", 1, 0) != nil ==> result1 != nil && result0 == ""
 //@   ensures [C10] success: called("syntax.Interceptors.URL", 1) && callresult("syntax.Interceptors.URL", 1, 0) == nil ==> result1 == nil
+
+// ---------------------------------------------------------------- Use and the Group's router list (C09, C13)
+
+// appendedTo(s, s0, n0, m): s is the old list (its first n0 elements as they were) followed by m, in order
+//@ pred extends(s []types.Middleware, m []types.Middleware, n0 int) = len(s) == n0 + len(m) && (forall k int :: 0 <= k && k < len(m) ==> s[n0 + k] == m[k])
+//
+//@ fn Router.Use
+//@   requires routerOK(r) && allSafe() && (forall k int :: 0 <= k && k < len(m) ==> m[k] != nil)
+//@   callsonly [C09] tree.Tree.ApplyMiddleware
+//@   atcall tree.Tree.ApplyMiddleware [C09] retroactive: arg0 == r.tree && arg1 == m
+//@   ensures [C09] appended-after: extends(r.ms, m, old(len(r.ms))) && (forall k int :: 0 <= k && k < old(len(r.ms)) ==> r.ms[k] == old(r.ms[k]))
+//
+//@ fn Group.Remove
+//@   requires g != nil
+//@   callsonly [C13] slices.DeleteFunc
+//@   atcall slices.DeleteFunc [C13] order-preserving: arg0 == g.routers
+//@   ensures [C13] result-kept: g.routers == callresult("slices.DeleteFunc", 1, 0)
+//
+//@ fn Group.Add
+//@   maypanic
+//@   requires g != nil && r != nil && routerOK(r) && allSafe() && (forall k int :: 0 <= k && k < len(g.routers) ==> g.routers[k] != nil) &&
+//@        (forall k int :: 0 <= k && k < len(g.ms) ==> g.ms[k] != nil)
+//@   atcall mux.Router.Use [C09,C13] inherits-group-middleware: arg0 == r && arg1 == g.ms
+//@   ensures [C13] added-last: len(g.routers) == old(len(g.routers)) + 1 && g.routers[old(len(g.routers))] == r &&
+//@        (forall k int :: 0 <= k && k < old(len(g.routers)) ==> g.routers[k] == old(g.routers[k]))
+//@   ensures [C13] matcher: r.matcher != nil && (matcher != nil ==> r.matcher == matcher)
+//
+//@ fn Group.New
+//@   maypanic
+//@   callsonly [C13] slices.Concat, mux.NewRouter, mux.Group.Add
+//@   atcall slices.Concat [C13] group-options-first: len(arg0) == 2 && arg0[0] == g.options && arg0[1] == o
+//@   atcall mux.NewRouter [C13] inherits: arg0 == name && arg1 == g.call && arg2 == g.originNotFound && arg3 == g.methodNotAllowedBuilder && arg4 == g.optionsBuilder &&
+//@        arg5 == callresult("slices.Concat", 1, 0)
+//@   atcall mux.Group.Add [C13] registered: arg0 == g && arg1 == matcher && arg2 == callresult("mux.NewRouter", 1, 0)
+//@   ensures [C13] returns-it: result == callresult("mux.NewRouter", 1, 0)
+//
+//@ fn Group.Use
+//@   requires g != nil && allSafe() && (forall k int :: 0 <= k && k < len(g.routers) ==> g.routers[k] != nil && routerOK(g.routers[k])) &&
+//@        (forall k int :: 0 <= k && k < len(m) ==> m[k] != nil)
+//@   atcall mux.Router.Use [C09] every-router: arg0 == g.routers[rangeindex + 1] && arg1 == m
+//@   atcall tree.ApplyMiddleware [C09] group-not-found: arg0 == old(g.notFound) && arg1 == "" && arg2 == "" && arg3 == "" && arg4 == m
+//@   ensures [C09] remembered: extends(g.ms, m, old(len(g.ms))) && (forall k int :: 0 <= k && k < old(len(g.ms)) ==> g.ms[k] == old(g.ms[k]))
+//@   inv 1 [C09] bound: -1 <= rangeindex && rangeindex < len(g.routers) && g.routers == old(g.routers) && g.notFound == old(g.notFound) && g.ms == old(g.ms)
+//@   inv 1 [C09] lists-kept: (forall k int :: 0 <= k && k < len(g.ms) ==> g.ms[k] == old(g.ms[k])) && (forall k int :: 0 <= k && k < len(m) ==> m[k] == old(m[k]) && m[k] != nil) &&
+//@        (forall k int :: 0 <= k && k < len(g.routers) ==> g.routers[k] == old(g.routers[k]))
+//@   inv 1 routers-ok: allSafe() && (forall k int :: 0 <= k && k < len(g.routers) ==> g.routers[k] != nil && routerOK(g.routers[k]))
+
+// ---------------------------------------------------------------- options.go: the library's own recovery functions (C16)
+// A recovery function contains the panic: it must not raise one itself, whatever the panic value is.
+//@ fn WithStatusRecovery$1
+//@   nopanic [C16]
+//@   requires w != nil
+//@   callsonly [C16] http.StatusText, http.Error
+//@ fn WithWriteRecovery$1
+//@   nopanic [C16]
+//@   requires w != nil
+//@   callsonly [C16] http.StatusText, http.Error, source.DumpStack
+//@ fn WithLogRecovery$1
+//@   nopanic [C16]
+//@   requires w != nil && l != nil
+//@   callsonly [C16] http.StatusText, http.Error, source.Stack, log.Logger.Println
+//@ fn WithSLogRecovery$1
+//@   nopanic [C16]
+//@   requires w != nil && l != nil
+//@   callsonly [C16] http.StatusText, http.Error, source.Stack, slog.Logger.Error
